@@ -241,6 +241,7 @@ func genC06(t *testing.T) {
 	if common.Batch == 0 {
 		typedNilFailures("C06")
 	}
+	progsC06(t)
 }
 
 func isSource(stage string) bool {
